@@ -332,6 +332,67 @@ func altFamily(full bool) []Pat {
 	return finalize("ALT", trees, map[string]bool{}, false)
 }
 
+// ---- ALTB: alternations whose branches are wrapped one by one (capture / atomic group), so that the parser's
+// prefix factoring cannot merge them and the prefix analysis has to intersect the branch prefixes itself ----
+
+func altBranchFamily(full bool) []Pat {
+	var lits []string
+	maxLit := 2
+	if full {
+		maxLit = 3
+	}
+	for _, l := range allStrings([]rune{'a', 'b'}, maxLit)[1:] {
+		lits = append(lits, string(l))
+	}
+	wrap := func(mode, i int, x *Node) *Node {
+		switch mode {
+		case 0:
+			return capg(x)
+		case 1:
+			return atomicg(x)
+		default: // alternate: capture, plain, capture
+			if i%2 == 0 {
+				return capg(x)
+			}
+			return x
+		}
+	}
+	pres := []*Node{nil}
+	sufs := []*Node{nil, lit('a')}
+	if full {
+		pres = append(pres, anyc())
+		sufs = append(sufs, asrt('$'), rep(lit('b'), 0, -1, false))
+	}
+	var trees []*Node
+	emit := func(bs ...string) {
+		for mode := 0; mode < 3; mode++ {
+			kids := make([]*Node, len(bs))
+			for i, b := range bs {
+				kids[i] = wrap(mode, i, litStr(b))
+			}
+			a := alt(kids...)
+			for _, pr := range pres {
+				for _, sf := range sufs {
+					if pr == nil && sf == nil {
+						trees = append(trees, a)
+					} else {
+						trees = append(trees, cat(pr, &Node{K: KGroup, Kids: []*Node{a}}, sf))
+					}
+				}
+			}
+		}
+	}
+	for _, x := range lits {
+		for _, y := range lits {
+			emit(x, y)
+			for _, z := range lits {
+				emit(x, y, z)
+			}
+		}
+	}
+	return finalize("ALTB", trees, map[string]bool{}, false)
+}
+
 // ---- LOOP ----
 
 func loopFamily(nullableBodies bool) []Pat {
